@@ -140,6 +140,17 @@ var c06Spellings = []c06Spelling{
 		r.RemoteAddr = "172.16.0.5:1"
 		r.Header.Set("X-Forwarded-For", hostPort(a, "50000"))
 	}},
+	{"real-ip-with-port", func(r *http.Request, a string) {
+		r.RemoteAddr = "172.16.0.5:1"
+		r.Header.Set("X-Real-IP", hostPort(a, "40000"))
+	}},
+	{"xff-bracketed", func(r *http.Request, a string) {
+		r.RemoteAddr = "172.16.0.5:1"
+		if strings.Contains(a, ":") {
+			a = "[" + a + "]" // an IPv6 address in brackets, without a port
+		}
+		r.Header.Set("X-Forwarded-For", a)
+	}},
 	{"xff-list-with-other-port", func(r *http.Request, a string) {
 		r.RemoteAddr = "172.16.0.5:1"
 		r.Header.Set("X-Forwarded-For", hostPort(a, "50009")+", 172.16.0.1")
@@ -238,6 +249,23 @@ func c06Affinity(r *vres.Report, strat string, maxN int) {
 							}
 						}
 					}
+					// other clients' requests in flight on this client's backend (injected into the
+					// gauge: 99, 100, 101 - the transport's connection cap per backend - and far more):
+					// the client stays where it is
+					if first >= 0 && ci%3 == 0 {
+						hb := k.backendByName(fmt.Sprintf("b%d", first))
+						for _, load := range []int32{99, 100, 101, 70000} {
+							hb.ActiveConnections += load
+							c := c
+							got, status := ask(func(r *http.Request) { r.RemoteAddr = hostPort(c, "1111") })
+							hb.ActiveConnections -= load
+							if got != first {
+								r.Violate("C06/"+strat+"/affinity-broken/under-load", fmt.Sprintf("%s n=%d ejected-mask=%b: client %s is served by b%d, but by %d (status %d) while %d requests of other clients are in flight on b%d", strat, n, mask, c, first, got, status, load, first), n,
+									map[string]interface{}{"strategy": strat, "n": n, "mask": mask, "client": c, "load": load})
+								break
+							}
+						}
+					}
 					outs.Add(fmt.Sprintf("n%d-b%d", n, first))
 					if sample == nil && n == 3 {
 						sample = map[string]interface{}{"strategy": strat, "n": n, "ejected_mask": mask, "client": c, "backend": first}
@@ -263,7 +291,7 @@ func c06Affinity(r *vres.Report, strat string, maxN int) {
 		}
 	}
 	r.AddScenario(vres.Scenario{Name: "affinity-" + strat, Engine: "H", Executions: cases, States: cases, Transitions: evals, Outcomes: outs.N(),
-		Bound:      fmt.Sprintf("n=1..%d x every ejected subset (n<=5) x %d client addresses x %d spellings x %d perturbations, other clients interleaved; %d junk strings in three places", maxN, len(c06Clients), len(c06Spellings), len(c06Perturb), len(c06Junk)),
+		Bound:      fmt.Sprintf("n=1..%d x every ejected subset (n<=5) x %d client addresses x %d spellings x %d perturbations, other clients interleaved and in flight on the client's backend (99 / 100 / 101 / 70000); %d junk strings in three places", maxN, len(c06Clients), len(c06Spellings), len(c06Perturb), len(c06Junk)),
 		Exhaustive: true, Sample: sample, Extra: map[string]interface{}{"wall_s": time.Since(start).Seconds()}})
 }
 
